@@ -76,8 +76,14 @@ def _annotation_nodes(tree) -> set:
     return skip
 
 
+DIAG: dict = {}
+
+
 def scan_module(repo: Repo, mod: ModuleInfo):
     """Yield (scope, api, lineno) for every use of a host table in the module."""
+    if mod.name not in DIAG:
+        from .. import shared as _shared
+        DIAG[mod.name] = set().union(*[_shared.diagnostic_slots(repo, ci) for ci in mod.classes.values() if not ci.enum_kind] or [set()])
     skip = _annotation_nodes(mod.tree)
 
     def visit(node, scope, inside_attr=False):
@@ -105,6 +111,10 @@ def scan_module(repo: Repo, mod: ModuleInfo):
                         filled.add(x.target.id)
                 if len(filled) == 1:
                     sc = f"={filled.pop()}"
+            if isinstance(child, ast.Assign) and len(child.targets) == 1 and isinstance(child.targets[0], ast.Attribute) \
+                    and isinstance(child.targets[0].value, ast.Name) and child.targets[0].value.id == "self" \
+                    and child.targets[0].attr in DIAG.get(mod.name, ()):
+                continue        # the value of a bookkeeping attribute nobody reads (shared.diagnostic_slots): not output
             if isinstance(child, (ast.FunctionDef, ast.AsyncFunctionDef)):
                 sc = f"{scope}.{child.name}" if scope != "<module>" else child.name
             elif isinstance(child, ast.ClassDef):
